@@ -96,8 +96,10 @@ def run(repo: str, tpl: str, out_dir: str, cfgs: List[str] = (), canary=False, s
         cmd += ["--cfg", c]
     if seed is not None:
         cmd += ["--smt-option", "smt.random_seed=%d" % seed]
-    if rlimit is not None:
-        cmd += ["--rlimit", str(rlimit)]
+    # resource limit per function: three times Verus' default (10), so that an unrelated edit of /repo that shifts the solver's
+    # context does not push a unit that normally needs ~10% of the default over the edge; rlimit counts solver work, not time,
+    # so the verdict on a given tree is the same on every machine
+    cmd += ["--rlimit", str(rlimit if rlimit is not None else 30)]
     res.cmd = " ".join(cmd)
     p = subprocess.run(cmd, cwd=out_dir, capture_output=True, text=True)
     res.wall_s = time.time() - t0
